@@ -9,8 +9,9 @@ RULE = ('random worlds with rich outcomes (several events per test, failing subt
         'setUp/tearDown failures), verbosity 0..2, sequential / resumed / -j runs, every outcome kind under --repeat 2/3; expected numbers and names are recomputed from the '
         "world's own trace; non-trivial = at least one failure or error and one skip or two layers")
 TRUSTED_BASE = COMMON_TRUSTED + ['expected counts per test come from the unittest protocol model applied to the scripted behaviour; which tests ran comes from the trace']
-ASSUMPTIONS = COMMON_ASSUMPTIONS + ['statement evaluated for --repeat <= 1 and without -x; with --repeat n the runner reports the last '
-                                    "iteration's test count (documented upstream output, see DESIGN §6 #15)"]
+ASSUMPTIONS = COMMON_ASSUMPTIONS + ['statement evaluated without -x; with --repeat n the "tests run" total is taken as the count of one iteration of each layer '
+                                    '(documented upstream output, see DESIGN §6 #15); failures, errors, skips, listed names and the per-iteration '
+                                    'summaries are evaluated over all iterations']
 
 
 def generate(rng, tier, rep):
@@ -28,8 +29,8 @@ def generate(rng, tier, rep):
             if T.get('deco_skip') and not any(not U.get('deco_skip') and U['layer'] == T['layer'] for U in c['tests']):
                 c['tests'].append({'layer': T['layer']})
         cases.append(c)
-    # --repeat with every outcome kind (the statement itself is evaluated for --repeat <= 1 only; with --repeat the per-iteration
-    # summaries, the lists and the totals are still compared with the model: nothing may leak from one iteration into the next)
+    # --repeat with every outcome kind (under --repeat the "tests run" total counts one iteration, everything else all iterations:
+    # nothing may leak from one iteration into the next and nothing recorded in an iteration may vanish)
     kinds = [{}, {'body': 'fail'}, {'body': 'error'}, {'deco_skip': True}, {'body': 'skip'}, {'xf': True, 'body': 'fail'}, {'xf': True},
              {'subs': ['fail', 'ok', 'error']}, {'tearDown': 'error'}, {'subs': ['skip']}]
     layer = {'name': 'La', 'bases': [], 'kind': 'instance', 'hooks': {'setUp': ['ok'], 'tearDown': ['ok']}}
@@ -71,4 +72,4 @@ LEVEL_TEXT = ('Reported ran / failures / errors / skipped, the per-layer summary
               'sequential, resumed and parallel mode.'
               ' Whole-run theorem (RunLedger.v): reported lists and counts are the exact ledger of the events of all processes (skips: parent only, open finding).')
 LEVEL_NOTE = ('Open finding: skips recorded in subprocess layers are not included in the totals (classified by Obs.c12_skip_finding). '
-              '--repeat > 1 and -x are outside the evaluated statement (the model still covers them).')
+              '-x is outside the evaluated statement (the model still covers it); under --repeat n the "tests run" total is one iteration\'s count.')
